@@ -217,6 +217,15 @@ def run(P, C):
         raise core.AnalysisBroken("walk_descents: trial 0 no longer receives &mutex / &cv — single-lock assumption of MT rules lost")
 
     # ---------------- coordinator
+    has_create = any(call_name(W, e["n"]) == CREATE for blk in W.blocks.values() for e in blk["elems"] if e.get("kind") == "stmt")
+    has_join = any(call_name(W, e["n"]) == JOIN for blk in W.blocks.values() for e in blk["elems"] if e.get("kind") == "stmt")
+    if has_create and not has_join:
+        # threads are created and never joined: the coordinator has no point after which the workers are known to be gone, so the
+        # destruction of the mutex / condition variable and the release of the trial array race with a worker that is still on its way out
+        C.ob("MT-5", "walk_descents", "joined-before-teardown", False, W.where(),
+             "walk_descents creates worker threads (pthread_create) and never joins them: pthread_mutex_destroy, pthread_cond_destroy and the "
+             "free of the trial array are not ordered after the workers' last access (a detached worker may still re-lock the mutex)")
+        return
     conc, creates, joins = concurrent_blocks(W)
     loops = core.natural_loops(W)
     wait_blocks = [b for b, blk in W.blocks.items() for e in blk["elems"] if e.get("kind") == "stmt" and call_name(W, e["n"]) == WAITF]
